@@ -3,6 +3,7 @@ package main
 import (
 	"bytes"
 	"encoding/hex"
+	"encoding/json"
 	"fmt"
 	"regexp"
 	"sort"
@@ -88,9 +89,77 @@ func fnvBytes(b []byte) uint64 {
 // instance names are embedded in some responses (info): make them comparable
 func normName(s, from, to string) string { return strings.ReplaceAll(s, from, to) }
 
+// c19CopyBoundaries: full and flattened copies of an instance whose number of stored / visible key-value pairs
+// sits on and around the copy's internal batch sizes (999, 1000, 1001, 2000 visible keys at the copied version,
+// reached through inherited, overwritten and deleted entries)
+func c19CopyBoundaries(c *Ctx) {
+	ns := []int{999, 1000, 1001}
+	if c.Thorough {
+		ns = append(ns, 2000, 3000)
+	}
+	for _, n := range ns {
+		func() {
+			OpenServer()
+			defer CloseServer()
+			root := NewRepo()
+			NewInstance(root, "keyvalue", "kv", nil)
+			key := func(i int) string { return fmt.Sprintf("k%05d", i) }
+			for i := 0; i < n+10; i++ {
+				Post("node/"+root+"/kv/key/"+key(i), []byte(fmt.Sprintf("root-%d", i)))
+			}
+			Commit(root)
+			child, _ := NewVersion(root)
+			for i := 0; i < 10; i++ {
+				Delete("node/" + child + "/kv/key/" + key(3*i))
+			}
+			for i := 0; i < 7; i++ {
+				Post("node/"+child+"/kv/key/"+key(100+i), []byte(fmt.Sprintf("child-%d", i)))
+			}
+			datastore.BlockOnUpdating(dvid.UUID(root), "kv")
+			for _, mode := range []string{"flatten", "all"} {
+				tgt := "kv" + mode
+				cfg := dvid.NewConfig()
+				cfg.Set("transmit", mode)
+				if err := datastore.CopyInstance(dvid.UUID(child), "kv", dvid.InstanceName(tgt), cfg); err != nil {
+					c.Report("O", "C19 copy-fails kv", "CopyInstance fails: "+err.Error(), fmt.Sprintf("%d visible keys, transmit=%s", n, mode))
+					continue
+				}
+				a, b := Get("node/"+child+"/kv/keys"), Get("node/"+child+"/"+tgt+"/keys")
+				c.Eval(fmt.Sprintf("copy boundary %d %s", n, mode), true)
+				c.Count("copy-boundary-" + mode)
+				if string(a.Body) != string(b.Body) {
+					var ka, kb []string
+					json.Unmarshal(a.Body, &ka)
+					json.Unmarshal(b.Body, &kb)
+					in := map[string]bool{}
+					for _, k := range kb {
+						in[k] = true
+					}
+					missing := []string{}
+					for _, k := range ka {
+						if !in[k] && len(missing) < 5 {
+							missing = append(missing, k)
+						}
+					}
+					c.Report("O", "C19 copy-loses-keys "+mode, "a copy of an instance does not list the keys the source lists at the copied version",
+						fmt.Sprintf("history: %d keys at the root, 10 deleted and 7 overwritten at the child (%d visible); CopyInstance transmit=%s at the child\nsource lists %d keys, copy lists %d; missing from the copy: %v", n+10, n, mode, len(ka), len(kb), missing))
+					continue
+				}
+				for _, i := range []int{1, 100, 106, n + 9, n + 8} {
+					x, y := Get("node/"+child+"/kv/key/"+key(i)), Get("node/"+child+"/"+tgt+"/key/"+key(i))
+					if x.Code != y.Code || string(x.Body) != string(y.Body) {
+						c.Report("O", "C19 copy-value-differs "+mode, "a value read from the copy differs from the source's", fmt.Sprintf("key %s: source %s copy %s", key(i), x, y))
+					}
+				}
+			}
+		}()
+	}
+}
+
 func runC19(c *Ctx) {
 	c.Rule = "a case is one (history, source instance, copy mode, version): a generated write/delete history over a branched DAG with merges in keyvalue, annotation, roi and uint8blk instances, datastore.CopyInstance full or flattened at a version, then every read endpoint of source and copy compared at every version (full) or at the flatten version, the raw keys of the copy compared with the model's rewrite of the source's raw keys, and the source's own reads and raw keys compared before and after; non-trivial when the compared version sees inherited, overwritten or deleted data (it is not the version of the last write of everything it reads)"
 	quietLogs()
+	c19CopyBoundaries(c)
 	worlds := 2
 	steps := 60
 	if c.Thorough {
